@@ -11,7 +11,8 @@ import os
 import re
 import shutil
 
-TTML_SAMPLE = """<?xml version="1.0" encoding="UTF-8"?>
+# (written in ISO 8859-1, as its XML declaration says: the encoding of a TTML file is the XML parser's business)
+TTML_SAMPLE = """<?xml version="1.0" encoding="ISO-8859-1"?>
 <tt xml:lang="en" xmlns="http://www.w3.org/ns/ttml" xmlns:tts="http://www.w3.org/ns/ttml#styling"
     xmlns:ttp="http://www.w3.org/ns/ttml#parameter" xmlns:ttm="http://www.w3.org/ns/ttml#metadata"
     xmlns:ex="http://example.com/ns/verif" ttp:cellResolution="32 15" ex:note="foreign">
@@ -27,7 +28,7 @@ TTML_SAMPLE = """<?xml version="1.0" encoding="UTF-8"?>
   </head>
   <body>
     <div>
-      <p region="bottom" begin="1s" end="3s" style="s2">First <span style="s1">cue</span> of the sample</p>
+      <p region="bottom" begin="1s" end="3s" style="s2">First <span style="s1">cue</span> of the sample: caf\u00e9 na\u00efve \u00a9</p>
       <p region="top" begin="2.5s" end="4s">Second cue<br/>on <span tts:color="RGB(0,255,0)">two</span> lines</p>
       <p region="bottom" begin="5s" end="6.5s"><span tts:fontWeight="bold">Third</span> &amp; last <span tts:textDecoration="underline">cue</span>
         <set begin="0.5s" end="1s" tts:color="red"/></p>
@@ -63,7 +64,7 @@ def write_samples(src, root):
   res = resources_root(src)
   out = {}
   out["ttml"] = os.path.join(d, "sample_ttml.bin")
-  with open(out["ttml"], "w", encoding="utf-8") as fh:
+  with open(out["ttml"], "w", encoding="iso-8859-1") as fh:
     fh.write(TTML_SAMPLE)
   out["srt"] = os.path.join(d, "sample_srt.bin")
   with open(out["srt"], "w", encoding="utf-8") as fh:
@@ -71,7 +72,21 @@ def write_samples(src, root):
   for fmt, rel in (("scc", "scc/pop-on.scc"), ("stl", "stl/sandflow/test_tcp_processing.stl"), ("vtt", "vtt/alignment.vtt")):
     out[fmt] = os.path.join(d, "sample_%s.bin" % fmt)
     shutil.copyfile(os.path.join(res, rel), out[fmt])
+  # cues that name a setting twice with different values (the last one counts, whatever the order a hash table gives)
+  with open(out["vtt"], "a", encoding="utf-8") as fh:
+    fh.write(VTT_EXTRA)
   return out
+
+
+VTT_EXTRA = """
+rep1
+01:00:01.000 --> 01:00:02.000 align:start align:end line:10% line:80%
+a setting given twice
+
+rep2
+01:00:03.000 --> 01:00:04.000 position:20% size:50% vertical:lr vertical:rl align:center align:start
+and once more
+"""
 
 
 def config_dict(settings):
